@@ -1049,6 +1049,117 @@ theorem componentSelect_val (bit a b : Nat) (c : Composer) (hwf : WF c)
   rw [hex.val_eq hbit, hex.val_eq ha, hex.val_eq hb] at h
   exact h
 
+/-! ### completeness: an arbitrary assignment of the old witnesses extends to the new ones -/
+
+theorem toF_val (x : F) : toF x.val = x := by
+  unfold toF; exact ZMod.natCast_zmod_val x
+
+/-- `w` with the value of wire `n` replaced by (the canonical representative of) `x` -/
+def setW (w : Nat → Nat) (n : Nat) (x : F) : Nat → Nat := fun i => if i = n then x.val else w i
+
+theorem setW_self (w : Nat → Nat) (n : Nat) (x : F) : toF (setW w n x n) = x := by
+  simp [setW, toF_val]
+
+theorem setW_of_ne (w : Nat → Nat) (n : Nat) (x : F) {i : Nat} (h : i ≠ n) :
+    setW w n x i = w i := by simp [setW, h]
+
+theorem setW_of_lt (w : Nat → Nat) (n : Nat) (x : F) {i : Nat} (h : i < n) :
+    setW w n x i = w i := setW_of_ne w n x (Nat.ne_of_lt h)
+
+theorem setW_lt (w : Nat → Nat) (n : Nat) (x : F) (hw : ∀ i, w i < R) (i : Nat) :
+    setW w n x i < R := by
+  unfold setW; split
+  · exact ZMod.val_lt x
+  · exact hw i
+
+theorem appendEvaluatedOutput_exists (s : Constraint) (c : Composer) (hwf : WF c)
+    (h : toF s.qo ≠ 0) (ha : s.a < c.wit.size) (hb : s.b < c.wit.size) (hd : s.d < c.wit.size)
+    (w0 : Nat → Nat) :
+    ∃ w, (∀ i, i ≠ c.wit.size → w i = w0 i) ∧
+      ((appendEvaluatedOutput s).run c).2.rowsHoldW w c.gates.size
+        ((appendEvaluatedOutput s).run c).2.gates.size := by
+  refine ⟨setW w0 c.wit.size (-(s.evalF w0 + s.piF) / toF s.qo),
+    fun i hi => setW_of_ne _ _ _ hi, ?_⟩
+  rw [appendEvaluatedOutput_rows_iff s c hwf h, setW_self,
+    Constraint_evalF_congr s (w' := w0) (setW_of_lt _ _ _ ha) (setW_of_lt _ _ _ hb)
+      (setW_of_lt _ _ _ hd)]
+  field_simp; ring
+
+theorem gateAdd_exists (s : Constraint) (c : Composer) (hwf : WF c)
+    (ha : s.a < c.wit.size) (hb : s.b < c.wit.size) (hd : s.d < c.wit.size) (w0 : Nat → Nat) :
+    ∃ w, (∀ i, i ≠ c.wit.size → w i = w0 i) ∧
+      ((gateAdd s).run c).2.rowsHoldW w c.gates.size ((gateAdd s).run c).2.gates.size := by
+  refine ⟨setW w0 c.wit.size (s.evalF w0 + s.piF), fun i hi => setW_of_ne _ _ _ hi, ?_⟩
+  rw [gateAdd_rows_iff s c hwf, setW_self,
+    Constraint_evalF_congr s (w' := w0) (setW_of_lt _ _ _ ha) (setW_of_lt _ _ _ hb)
+      (setW_of_lt _ _ _ hd)]
+
+theorem appendConstant_exists (v : Nat) (c : Composer) (hwf : WF c) (w0 : Nat → Nat) :
+    ∃ w, (∀ i, i ≠ c.wit.size → w i = w0 i) ∧
+      ((appendConstant v).run c).2.rowsHoldW w c.gates.size
+        ((appendConstant v).run c).2.gates.size := by
+  refine ⟨setW w0 c.wit.size (toF v), fun i hi => setW_of_ne _ _ _ hi, ?_⟩
+  rw [appendConstant_rows_iff v c hwf, setW_self]
+
+theorem appendPublic_exists (v : Nat) (c : Composer) (hwf : WF c) (w0 : Nat → Nat) :
+    ∃ w, (∀ i, i ≠ c.wit.size → w i = w0 i) ∧
+      ((appendPublic v).run c).2.rowsHoldW w c.gates.size
+        ((appendPublic v).run c).2.gates.size := by
+  refine ⟨setW w0 c.wit.size (toF v), fun i hi => setW_of_ne _ _ _ hi, ?_⟩
+  rw [appendPublic_rows_iff v c hwf, setW_self]
+
+theorem componentSelectZero_exists (bit value : Nat) (c : Composer) (hwf : WF c)
+    (hb : bit < c.wit.size) (hv : value < c.wit.size) (w0 : Nat → Nat) :
+    ∃ w, (∀ i, i ≠ c.wit.size → w i = w0 i) ∧
+      ((componentSelectZero bit value).run c).2.rowsHoldW w c.gates.size
+        ((componentSelectZero bit value).run c).2.gates.size := by
+  refine ⟨setW w0 c.wit.size (toF (w0 bit) * toF (w0 value)), fun i hi => setW_of_ne _ _ _ hi, ?_⟩
+  rw [componentSelectZero_rows_iff bit value c hwf, setW_self, setW_of_lt _ _ _ hb,
+    setW_of_lt _ _ _ hv]
+
+theorem componentSelectOne_exists (bit value : Nat) (c : Composer) (hwf : WF c)
+    (hb : bit < c.wit.size) (hv : value < c.wit.size) (w0 : Nat → Nat) :
+    ∃ w, (∀ i, i ≠ c.wit.size → w i = w0 i) ∧
+      ((componentSelectOne bit value).run c).2.rowsHoldW w c.gates.size
+        ((componentSelectOne bit value).run c).2.gates.size := by
+  refine ⟨setW w0 c.wit.size (1 - toF (w0 bit) + toF (w0 bit) * toF (w0 value)),
+    fun i hi => setW_of_ne _ _ _ hi, ?_⟩
+  rw [componentSelectOne_rows_iff bit value c hwf, setW_self, setW_of_lt _ _ _ hb,
+    setW_of_lt _ _ _ hv]
+
+theorem componentSelect_exists (bit a b : Nat) (c : Composer) (hwf : WF c)
+    (hbit : bit < c.wit.size) (ha : a < c.wit.size) (hb : b < c.wit.size) (w0 : Nat → Nat) :
+    ∃ w, (∀ i, i < c.wit.size → w i = w0 i) ∧
+      ((componentSelect bit a b).run c).2.rowsHoldW w c.gates.size
+        ((componentSelect bit a b).run c).2.gates.size := by
+  let n := c.wit.size
+  let w1 := setW w0 n (toF (w0 bit) * toF (w0 a))
+  let w2 := setW w1 (n + 1) (1 - toF (w0 bit))
+  let w3 := setW w2 (n + 2) ((1 - toF (w0 bit)) * toF (w0 b))
+  let w4 := setW w3 (n + 3) ((1 - toF (w0 bit)) * toF (w0 b) + toF (w0 bit) * toF (w0 a))
+  have old : ∀ i, i < n → w4 i = w0 i := by
+    intro i hi
+    show setW (setW (setW (setW w0 n _) (n + 1) _) (n + 2) _) (n + 3) _ i = w0 i
+    rw [setW_of_ne _ _ _ (by omega), setW_of_ne _ _ _ (by omega), setW_of_ne _ _ _ (by omega),
+      setW_of_ne _ _ _ (by omega)]
+  have v0 : toF (w4 n) = toF (w0 bit) * toF (w0 a) := by
+    show toF (setW (setW (setW (setW w0 n _) (n + 1) _) (n + 2) _) (n + 3) _ n) = _
+    rw [setW_of_ne _ _ _ (by omega), setW_of_ne _ _ _ (by omega), setW_of_ne _ _ _ (by omega),
+      setW_self]
+  have v1 : toF (w4 (n + 1)) = 1 - toF (w0 bit) := by
+    show toF (setW (setW (setW (setW w0 n _) (n + 1) _) (n + 2) _) (n + 3) _ (n + 1)) = _
+    rw [setW_of_ne _ _ _ (by omega), setW_of_ne _ _ _ (by omega), setW_self]
+  have v2 : toF (w4 (n + 2)) = (1 - toF (w0 bit)) * toF (w0 b) := by
+    show toF (setW (setW (setW (setW w0 n _) (n + 1) _) (n + 2) _) (n + 3) _ (n + 2)) = _
+    rw [setW_of_ne _ _ _ (by omega), setW_self]
+  have v3 : toF (w4 (n + 3)) =
+      (1 - toF (w0 bit)) * toF (w0 b) + toF (w0 bit) * toF (w0 a) := setW_self _ _ _
+  refine ⟨w4, old, ?_⟩
+  rw [componentSelect_rows_iff bit a b c hwf]
+  show toF (w4 n) = _ ∧ toF (w4 (n + 1)) = _ ∧ toF (w4 (n + 2)) = _ ∧ toF (w4 (n + 3)) = _
+  rw [v0, v1, v2, v3, old bit hbit, old a ha, old b hb]
+  exact ⟨rfl, rfl, rfl, rfl⟩
+
 /-! ### `Composer::initialized()` -/
 
 theorem initialized_gates_size : initialized.gates.size = 4 := by decide +kernel
